@@ -45,6 +45,7 @@ type c13Content struct {
 
 func c13Contents(g *ref.Gen) []*c13Content {
 	mk := func(name string, variant int, mismatch bool) *c13Content {
+		mismatch2 := name == "Y-mismatch"
 		env := bridge.NewEnv()
 		host := map[string]interface{}{}
 		put := func(n string, v *ref.V, h interface{}) { env.Put(n, v); host[n] = h }
@@ -67,10 +68,16 @@ func c13Contents(g *ref.Gen) []*c13Content {
 		}
 		put("m", mv, m)
 		ss := []string{"x", "y", []string{"z", "晓"}[variant%2]}
-		put("ss", ref.VList(ref.TStr, ref.VStr(ss[0]), ref.VStr(ss[1]), ref.VStr(ss[2])), ss)
+		if mismatch2 {
+			put("ss", ref.VStr("abc"), "abc") // ss : str instead of list[str]
+		} else {
+			put("ss", ref.VList(ref.TStr, ref.VStr(ss[0]), ref.VStr(ss[1]), ref.VStr(ss[2])), ss)
+		}
+		put("em", ref.VMap(ref.TStr, ref.TNum), map[string]float64{})
+		put("el", ref.VList(ref.TNum), []float64{})
 		return &c13Content{name: name, env: env, host: host, tenv: env.TypeEnv(), venv: env.ValEnv()}
 	}
-	return []*c13Content{mk("A", 0, false), mk("B", 1, false), mk("C", 2, false), mk("D", 3, false), mk("X-mismatch", 1, true)}
+	return []*c13Content{mk("A", 0, false), mk("B", 1, false), mk("C", 2, false), mk("D", 3, false), mk("Y-mismatch", 2, false), mk("X-mismatch", 1, true)}
 }
 
 func snapshotHost(c *c13Content) string {
@@ -219,6 +226,11 @@ func runC13(c *run.Ctx) {
 				ref.CallF(ref.FInfix, "+", ref.Call("ov", ref.Ident("xs")), ref.Call("ov", ref.Ident("n"))),
 				ref.Call("ov", ref.Ident("ss")),
 				ref.Call("len", ref.Ident("xs")),
+				ref.Call("len", ref.Ident("ss")),
+				ref.CallF(ref.FInfix, "==", ref.Ident("ss"), ref.Ident("ss")),
+				ref.List(ref.Ident("em"), ref.Ident("em")),
+				ref.Obj([]string{"p", "q", "r"}, []*ref.E{ref.Ident("em"), ref.List(ref.Ident("em"), ref.Ident("em")), ref.List(ref.Ident("el"), ref.Ident("el"))}),
+				ref.Call("string", ref.List(ref.Ident("em"), ref.Ident("em"))),
 				ref.Call("print", ref.Call("string", ref.Map([]*ref.E{ref.Ident("s"), ref.Str("k2"), ref.Str("k3")}, []*ref.E{ref.Ident("m"), ref.Ident("m"), ref.Ident("m")}))),
 			}
 			for _, e := range fixed {
@@ -300,8 +312,11 @@ func runC13(c *run.Ctx) {
 						ei := r.Intn(len(srcs))
 						// compile-time environments of both type signatures
 						cc := contents[0]
-						if r.Intn(3) == 0 {
+						switch r.Intn(5) {
+						case 0:
 							cc = contents[len(contents)-1]
+						case 1:
+							cc = contents[len(contents)-2]
 						}
 						var envObj interface{} = cc.tenv
 						if r.Intn(3) == 0 {
